@@ -219,6 +219,9 @@ def build_call(case, _built=None):
     n = case['graph']['n']
     c.G, c.lab, c.n, c.sim = G, lab, n, sim
     c.tmin, c.tmax = case.get('tmin', 0), tmax_of(case)
+    unit = case.get('time_unit_scaled') if (sim in WEIGHTED and c.tmin == 0) else None
+    if unit and c.tmax != float('inf') and c.tmax != 0:
+        c.tmax = c.tmin + (c.tmax - c.tmin) / unit
     c.full = bool(case.get('full'))
     c.model = 'SIR' if sim in SIR_SIMS else ('SIS' if sim in SIS_SIMS else 'generic')
     c.I0 = [lab(i) for i in case['I0']] if case.get('I0') is not None else None
@@ -226,7 +229,7 @@ def build_call(case, _built=None):
     kw = {}
     args = [G]
     if sim in ('fast_SIR', 'Gillespie_SIR', 'fast_SIS', 'Gillespie_SIS'):
-        args += [case['tau'], case['gamma']]
+        args += [case['tau'] * (unit or 1), case['gamma'] * (unit or 1)]
         if case.get('wm', 'none') in ('edge', 'both'):
             kw['transmission_weight'] = simcase.TW
         if case.get('wm', 'none') in ('node', 'both'):
@@ -408,9 +411,6 @@ def random_sim_case(r, sim, nmax=14, tmaxes=None):
         case['tmax'] = r.choice([0, 0.0])    # a horizon of exactly zero (falsy) after a negative start time
     if sim in WEIGHTED and case['tmin'] == 0 and r.random() < 0.12:
         # the same epidemic in another time unit (per-second instead of per-year rates): all rates tiny, or large
-        sc = r.choice([1e-9, 1e-13, 1e6])
-        case['tau'], case['gamma'] = case['tau'] * sc, case['gamma'] * sc
-        if case['tmax'] != 'inf':
-            case['tmax'] = case['tmin'] + (case['tmax'] - case['tmin']) / sc
-        case['time_unit_scaled'] = sc
+        # (applied when the call is built, so that a check that sets its own horizon afterwards still gets it in the scaled unit)
+        case['time_unit_scaled'] = r.choice([1e-9, 1e-13, 1e6])
     return case
